@@ -522,6 +522,18 @@ def val_lt(E, a, b):
     if isinstance(a, I):
         return i_cmp('Lt', a, b)
     if isinstance(a, (Slice, VecV)):
+        sa, sb = as_slice(a), as_slice(b)
+        if sa.kind == 'Path' or sb.kind == 'Path' or (isinstance(a, VecV) and a.kind == 'PathBuf'):
+            from .models_io import path_components
+            ca, cb = path_components(E, sa), path_components(E, sb)
+            order = {'RootDir': 1, 'CurDir': 2, 'ParentDir': 3, 'Normal': 4}
+            res = len(ca) < len(cb)
+            for (ka, xa_), (kb, xb_) in reversed(list(zip(ca, cb))):
+                if ka != kb:
+                    res = order[ka] < order[kb]
+                elif ka == 'Normal':
+                    res = b_or(bytes_lt(xa_.items(), xb_.items()), b_and(bytes_eq(xa_.items(), xb_.items()), res))
+            return res
         xa, xb = items_of(a), items_of(b)
         if all(isinstance(x, I) for x in xa) and all(isinstance(x, I) for x in xb):
             return bytes_lt(xa, xb)
@@ -2105,3 +2117,33 @@ def _cell_replace(E, ci, c, v):
     old = deref(c).fields[0]
     deref(c).fields[0] = v
     return old
+
+
+def _sort_with(E, s, less):
+    """stable insertion sort with a forking comparison"""
+    s = as_slice(s)
+    out = []
+    for x in s.items():
+        i = len(out)
+        while i > 0 and less(x, out[i - 1]):
+            i -= 1
+        out.insert(i, x)
+    s.buf[s.a:s.b] = out
+    return UNIT
+
+
+@model('slice::sort_by', 'slice::sort_unstable_by', 'Vec::sort_by', 'Vec::sort_unstable_by')
+def _sort_by(E, ci, s, f):
+    def less(a, b):
+        o = E.call_value(f, [Ref([a], 0), Ref([b], 0)])
+        return o.variant == -1
+    return _sort_with(E, s, less)
+
+
+@model('slice::sort_by_key', 'slice::sort_unstable_by_key', 'Vec::sort_by_key', 'slice::sort_by_cached_key')
+def _sort_by_key(E, ci, s, f):
+    def less(a, b):
+        ka = E.call_value(f, [Ref([a], 0)])
+        kb = E.call_value(f, [Ref([b], 0)])
+        return E.branch(val_lt(E, ka, kb))
+    return _sort_with(E, s, less)
